@@ -602,16 +602,18 @@ func columns(s string) []string {
 
 // matchFK reports if the foreign-key matches the given attributes.
 func matchFK(fk *schema.ForeignKey, columns []string, refTable string, refColumns []string) bool {
-	if len(fk.Columns) != len(columns) || fk.RefTable.Name != refTable || len(fk.RefColumns) != len(refColumns) {
+	// Names are case-insensitive in SQLite, and the statement may spell
+	// them differently than the tables and columns were defined.
+	if len(fk.Columns) != len(columns) || !strings.EqualFold(fk.RefTable.Name, refTable) || len(fk.RefColumns) != len(refColumns) {
 		return false
 	}
 	for i := range columns {
-		if fk.Columns[i].Name != columns[i] {
+		if !strings.EqualFold(fk.Columns[i].Name, columns[i]) {
 			return false
 		}
 	}
 	for i := range refColumns {
-		if fk.RefColumns[i].Name != refColumns[i] {
+		if !strings.EqualFold(fk.RefColumns[i].Name, refColumns[i]) {
 			return false
 		}
 	}
